@@ -221,6 +221,8 @@ class PrintingStringIO(CapturedOutput):
         return super().flush()
 
     def writelines(self, lines):
+        # The lines may come from a generator, which can only be walked once
+        lines = list(lines)
         self._original_stdout.writelines(lines)
         return super().writelines(lines)
 
